@@ -239,6 +239,62 @@ pub fn generate(s: &mut Session, thorough: bool) -> bool {
         let (req, imp, why) = run_case(p, (x.hypot(y), y.atan2(x), z + 0.001), grid);
         s.push_oracle("track-like", req, imp, why);
     }
+    // the parameter reported for each track of a primary vertex: closest approach of that track to the
+    // FITTED vertex position (seed C16-6 computed it at the seed z of the fit)
+    {
+        use alpha_g_physics::reconstruction::find_vertices;
+        use uom::si::length::meter;
+        let mut checked = 0usize;
+        for _ in 0..n / 20 {
+            // 2-4 tracks through a common point 0-3 cm off the beamline, with unequal slopes
+            let (vx, vy, vz) = ((2.0 * rng.f64_unit() - 1.0) * 0.03, (2.0 * rng.f64_unit() - 1.0) * 0.03, (2.0 * rng.f64_unit() - 1.0) * 0.8);
+            let nt = rng.range(2, 4) as usize;
+            let mut specs: Vec<[f64; 8]> = Vec::new();
+            for _ in 0..nt {
+                let r = 0.3 + 3.0 * rng.f64_unit();
+                let ang = (2.0 * rng.f64_unit() - 1.0) * PI;
+                let h = (2.0 * rng.f64_unit() - 1.0) * 6.0;
+                let (x0, y0) = (vx + r * ang.cos(), vy + r * ang.sin());
+                let phi0 = ang + PI;
+                specs.push([x0, y0, vz, r, phi0, h, 0.03, 0.25 + 0.3 * rng.f64_unit()]);
+            }
+            let tracks: Vec<_> = specs.iter().map(|t| hook::track_from_params([t[0], t[1], t[2], t[3], t[4], t[5]], t[6], t[7])).collect();
+            let req = format!("vertexfit {}", specs.iter().map(|t| t.iter().map(|x| format!("{:016x}", x.to_bits())).collect::<Vec<_>>().join(",")).collect::<Vec<_>>().join(" "));
+            let (imp, why) = match guarded(move || find_vertices(tracks)) {
+                Err(m) => (format!("panic {m}"), Some(format!("find_vertices panicked: {m}"))),
+                Ok(res) => match res.primary {
+                    None => ("ok none".to_string(), None),
+                    Some(v) => {
+                        let q = (v.position.x.get::<meter>(), v.position.y.get::<meter>(), v.position.z.get::<meter>());
+                        let mut why = None;
+                        let mut out = format!("ok {:016x} {:016x} {:016x}", q.0.to_bits(), q.1.to_bits(), q.2.to_bits());
+                        for (tr, t) in &v.tracks {
+                            let p = hook::track_params(tr);
+                            out.push_str(&format!(" {:016x}", t.to_bits()));
+                            checked += 1;
+                            if t.is_nan() || !(-PI..=PI).contains(t) {
+                                why = Some(format!("vertex track parameter {t} is NaN or outside [-pi, pi]"));
+                            } else if *t > -PI && *t < PI {
+                                let (best, tb) = min_dist(&p, q, grid);
+                                let mine = dist(&p, q, *t);
+                                if mine > best + 1e-9 {
+                                    why = Some(format!(
+                                        "vertex track parameter t={t:?} is at distance {mine:e} m from the fitted vertex but t'={tb:?} is at {best:e} m (closer by {:e} m)",
+                                        mine - best
+                                    ));
+                                }
+                            }
+                        }
+                        (out, why)
+                    }
+                },
+            };
+            // implementation-only request (the vertex fit itself is tied to the model by module c14c):
+            // the driver echoes the recorded answer after `=>`
+            s.push_oracle("vertex-track-t", format!("impl-only {req} => {imp}"), imp, why);
+        }
+        s.notes.insert("vertex_track_parameters_checked".into(), serde_json::json!(checked));
+    }
     let inside = s.cases.iter().filter(|c| parse_td(&c.imp).map(|(t, _)| t > -PI && t < PI).unwrap_or(false)).count();
     s.notes.insert("t_strictly_inside".into(), serde_json::json!(inside));
     s.notes.insert("grid_points_per_case".into(), serde_json::json!(grid));
